@@ -637,8 +637,20 @@ func checkWalkerBulk(r *Reporter, p *Prog) {
 			if !ok || len(c.Args) != 1 || len(params) != 1 {
 				return false
 			}
-			se, ok := ast.Unparen(c.Fun).(*ast.SelectorExpr)
-			return ok && se.Sel.Name == "PushBack" && fieldSel(info, se.X, "stack") && objOfIdent(info, c.Args[0]) == params[0]
+			// the call itself, or a call of a function parameter of a spliced helper that is bound to
+			// the method value (`w.enqueue(e, w.stack.PushBack)` ... `insert(e)`)
+			fun := ast.Unparen(c.Fun)
+			cpt, okp := f.PointOf(c)
+			if _, isSel := fun.(*ast.SelectorExpr); !isSel && okp {
+				if re, _ := f.Resolve(fun, cpt); re != nil {
+					fun = ast.Unparen(re)
+				}
+			}
+			se, ok := fun.(*ast.SelectorExpr)
+			if !ok || se.Sel.Name != "PushBack" || !fieldSel(info, se.X, "stack") {
+				return false
+			}
+			return objOfIdent(info, c.Args[0]) == params[0] || (okp && f.IsVar(c.Args[0], cpt, params[0]))
 		})
 		okPush := len(appends) == 1
 		nSkip := 0
